@@ -213,7 +213,7 @@ type profile struct {
 
 var allActs = []string{"equivocate", "badparent", "staleqc", "inflate", "dupsigner", "relabel", "subquorum",
 	"wrongblock", "genesisview", "futuretimeout", "badtimeoutsig", "dupvote", "multivote", "zerovote", "unknownvote",
-	"strayvote", "replay", "liefetch", "silent", "staleTC", "swapids", "nosig", "sameview", "aggreplay", "forgevote", "forgetc", "forgecontrib", "aggtwin", "aggattest", "aggforge", "roguekey", "payloadeq", "qceq", "aggswap", "aggstale"}
+	"strayvote", "replay", "liefetch", "silent", "staleTC", "swapids", "nosig", "sameview", "aggreplay", "forgevote", "forgetc", "forgecontrib", "aggtwin", "aggattest", "aggforge", "roguekey", "payloadeq", "qceq", "aggswap", "aggstale", "spoofproposer", "dupbatch", "zeroview", "anoncontrib"}
 
 func profileFor(prop string) profile {
 	pr := profile{byz: 0.6, acts: allActs, faults: 6, leaders: []string{"round-robin", "round-robin", "round-robin", "fixed", "carousel", "reputation", "scripted"}}
@@ -221,7 +221,9 @@ func profileFor(prop string) profile {
 	case "C13":
 		pr.byz = 0.8
 		pr.acts = []string{"equivocate", "equivocate", "equivocate", "badparent", "sameview", "staleqc", "liefetch", "liefetch", "silent", "replay", "futuretimeout"}
-	case "C01", "C03", "C07":
+	case "C03":
+		pr.acts = append(append([]string{}, allActs...), "spoofproposer", "spoofproposer", "spoofproposer", "spoofproposer")
+	case "C01", "C07":
 	case "C11":
 		pr.byz = 0.9
 		pr.nSwarm = true
@@ -238,7 +240,7 @@ func profileFor(prop string) profile {
 		pr.faultFree = 0.2
 	case "C06":
 		pr.clients = true
-		pr.acts = append(append([]string{}, allActs...), "payloadeq", "payloadeq", "payloadeq", "payloadeq", "equivocate", "equivocate")
+		pr.acts = append(append([]string{}, allActs...), "payloadeq", "payloadeq", "payloadeq", "payloadeq", "equivocate", "equivocate", "dupbatch", "dupbatch", "dupbatch", "dupbatch")
 	case "C10":
 		pr.inject = 40
 		pr.forceWire = true
@@ -338,7 +340,14 @@ func GenPlan(prop string, seed uint64) *Plan {
 	}
 	switch prop {
 	case "C01", "C03", "C07", "C09", "C10", "C12", "C13":
-		if g.p(0.12) {
+		kp := 0.12
+		if prop == "C09" {
+			kp = 0.3
+		}
+		if prop == "C10" {
+			kp = 0.2
+		}
+		if g.p(kp) {
 			// Kauri: tree dissemination and aggregation, the tree root leads every view
 			if p.Knobs == nil {
 				p.Knobs = map[string]int{}
@@ -347,7 +356,10 @@ func GenPlan(prop string, seed uint64) *Plan {
 			p.Knobs["bf"] = pick(g, 2, 2, 3)
 			p.N = pick(g, 4, 7, 7, 10, 13)
 			p.Leader = "tree-leader"
-			pr.acts = append(append([]string{}, pr.acts...), "forgecontrib", "forgecontrib", "forgecontrib", "forgecontrib", "forgecontrib", "forgecontrib")
+			pr.acts = append(append([]string{}, pr.acts...), "forgecontrib", "forgecontrib", "forgecontrib", "forgecontrib", "forgecontrib", "forgecontrib", "anoncontrib", "anoncontrib", "anoncontrib", "anoncontrib")
+			if prop == "C09" {
+				pr.byz = 0.35 // completeness at the tree root is only promised for an honest tree
+			}
 		}
 	}
 	p.Batch = pick(g, 1, 1, 2, 3)
